@@ -755,6 +755,7 @@ def check_C20(ctx):
     t = ctx.tier
     vlib.build_harness_race(ctx)
     vlib.tlc_check(ctx, "InflectorCache", "InflectorCache_A_%s.cfg" % t, workers=8)
+    vlib.tlc_expect_violation(ctx, "InflectorCache", "InflectorCache_A_seeddemo.cfg", "C20_ReturnsF")
     proved = vlib.tlaps_prove(ctx, "proofs/MemoCacheProof.tla") if not ctx.quick() else 0
     res = run_family(ctx, "inflect", "Inflector", ["Inflector_gen.cfg"], "InflectorTrace",
                      rand_n=3000 if ctx.quick() else 45000, shard=4000)
